@@ -33,6 +33,14 @@ inductive Base where
   | def_ | defExpand | definition | other
 deriving Repr, DecidableEq, Inhabited
 
+/-- where a tag's `_parent` points: at the group whose children hold the tag (`ok`, true of every parsed or
+deep-copied tag); at a group outside the tree that itself has no parent (`det0`: the throw-away group built by
+`get_definition(tag)` when the tag is not copied first); at a group outside the tree that has a parent (`det1`:
+the cached group after `expand_defs` replaced the tag inside such a throw-away group). -/
+inductive Att where
+  | ok | det0 | det1
+deriving Repr, DecidableEq, Inhabited
+
 structure Tag where
   base : Base := .other
   name : Str := []
@@ -42,6 +50,7 @@ structure Tag where
   uniqReq : Bool := false
   cached : Bool := false
   expanded : Bool := false
+  att : Att := .ok
 deriving Repr, DecidableEq, Inhabited
 
 inductive Node where
@@ -66,7 +75,7 @@ def extension (t : Tag) : Str := t.ext.drop 1
 def hashes (t : Tag) : Nat := t.str.count '#'
 def isDefish (t : Tag) : Bool := t.base != .other
 /-- forget the mutable fields (a freshly parsed / deep-copied-and-never-queried tag) -/
-def erase (t : Tag) : Tag := { t with cached := false, expanded := false }
+def erase (t : Tag) : Tag := { t with cached := false, expanded := false, att := .ok }
 /-- `HedTag.__eq__` on two distinct objects: case-folded short forms, or case-folded original texts -/
 def eqv (fold : Str → Str) (a b : Tag) : Bool := fold a.str == fold b.str || a.org == b.org
 end Tag
@@ -299,7 +308,7 @@ def expansion (dd : DefDict) (t : Tag) : Expn :=
 /-! ### The mutable object -/
 
 inductive Err where
-  | keyError | valueError | recursion
+  | keyError | valueError | recursion | indexError
 deriving Repr, DecidableEq, Inhabited
 
 /-- a `HedString` built with its `def_dict`: children of the root, and whether a cycle has been created -/
@@ -328,7 +337,10 @@ def expTag (fix : Bool) (dd : DefDict) (inGrp : Bool) (t : Tag) : Node :=
     | .ok cs =>
       if (touch t).expanded then .tag (touch t)
       else if t.base == .defExpand then .tag (touch t)      -- replaced by the group it already sits in: cycle
-      else .grp (.tag (toDE fix (touch t)) :: cs)
+      else if t.att == .ok then .grp (.tag (toDE fix (touch t)) :: cs)
+      -- `tag._parent.replace(tag, group)` happens inside a group that is not in the tree: the tag stays where
+      -- it is, renamed, and now points at the cached group (which got that outside group as parent)
+      else .tag { toDE fix (touch t) with att := .det1 }
     | _ => .tag t
   else .tag t
 
@@ -363,11 +375,17 @@ end
 /-- Def-expand tags directly in a group -/
 def deTags (ks : List Node) : List Tag := (tagsOf ks).filter (fun t => t.base == .defExpand)
 
+/-- those of them whose `_parent` is this group (all of them unless a tag has been re-parented) -/
+def deTagsA (ks : List Node) : List Tag := (deTags ks).filter (fun t => t.att == .ok)
+
 mutual
 /-- `shrink_defs` on a node below the root: the outermost group holding a Def-expand tag becomes that tag -/
 def shrN (fix : Bool) : Node → Node
-  | .tag t => .tag t
-  | .grp ks => match deTags ks with
+  | .tag t =>
+    -- a Def-expand tag whose `_parent` is an outside group with a parent is renamed where it stands (the
+    -- replacement happens outside the tree); with `det0` the `if expanded_parent:` test skips it
+    if t.base == .defExpand && t.att == .det1 then .tag { toDef fix t with att := .det0 } else .tag t
+  | .grp ks => match deTagsA ks with
     | [] => .grp (shrL fix ks)
     | t :: _ => .tag (toDef fix t)
 def shrL (fix : Bool) : List Node → List Node
@@ -379,7 +397,7 @@ mutual
 /-- `shrink_defs` raises KeyError: some parenthesised group (even one already detached) has two Def-expand tags -/
 def shrErrN : Node → Bool
   | .tag _ => false
-  | .grp ks => decide ((deTags ks).length ≥ 2) || shrErrL ks
+  | .grp ks => decide ((deTagsA ks).length ≥ 2) || shrErrL ks
 def shrErrL : List Node → Bool
   | [] => false
   | k :: ks => shrErrN k || shrErrL ks
@@ -448,24 +466,117 @@ end
 def validateDefs (sorted : Bool) (dd : DefDict) (root : List Node) : List VKind :=
   chkChildren fold sorted dd root ++ valL fold sorted dd root
 
+/-! ### `DefExpandGatherer` (hed/models/def_expand_gather.py): definitions recovered from Def-expand groups
+
+Modelled: `_process_def_expand` / `_handle_known_definition` as a fold over the (Def-expand tag, group) pairs of
+the cells.  Not modelled: the placeholder inference of `AmbiguousDef` — pairs that reach it are collected in
+`ambiguous` and the fold stops being compared from there on. -/
+
+structure GState where
+  dd : DefDict := []
+  /-- `errors`: folded name ↦ reported content groups (children lists), in order -/
+  errors : List (Str × List (List Node)) := []
+  /-- pairs handed to `_handle_ambiguous_definition` -/
+  ambiguous : List (Tag × List Node) := []
+deriving Inhabited
+
+def addError (es : List (Str × List (List Node))) (k : Str) (g : List Node) : List (Str × List (List Node)) :=
+  if es.any (fun e => e.1 == k) then es.map (fun e => if e.1 == k then (e.1, e.2 ++ [g]) else e)
+  else es ++ [(k, [g])]
+
+/-- `defs[key] = entry` (an existing key keeps its position) -/
+def setEntry (dd : DefDict) (e : Entry) : DefDict :=
+  if dd.any (fun x => x.key == e.key) then dd.map (fun x => if x.key == e.key then e else x) else dd ++ [e]
+
+section
+variable (fold : Str → Str)
+
+/-- One (Def-expand tag, group children) pair.  `gfix` = the proposed repair: a name that is defined but used
+with the wrong value presence is reported instead of silently replacing the definition. -/
+def gatherStep (gfix : Bool) (st : GState) (t : Tag) (ks : List Node) : Except Err GState :=
+  let sorted := sortG fold ks                        -- `def_expand_group.sort()`
+  let key := fold (labelOf t)
+  let report : Except Err GState :=                  -- `errors[...].append(def_expand_group.get_first_group())`
+    match (groupsOf sorted).head? with
+    | some g => .ok { st with errors := addError st.errors key g }
+    | none => .error .indexError
+  match expansion fold st.dd t with
+  | .ok cs => if eqvL fold (sortG fold (.tag t :: cs)) sorted then .ok st else report
+  | .internal => .error .valueError
+  | x =>
+    let known := match x with | .mismatch _ => true | _ => false
+    if gfix && known then report
+    else if !(t.extension.contains '/') then
+      match (groupsOf sorted).head? with
+      | some g => .ok { st with dd := setEntry st.dd ⟨key, labelOf t, eraseL (sortG fold g), false⟩ }
+      | none => .error .indexError
+    else if st.errors.any (fun e => e.1 == key) then report
+    else .ok { st with ambiguous := st.ambiguous ++ [(t, ks)] }
+
+mutual
+/-- the pairs of `find_def_tags(recursive=True)` that are Def-expand groups, in its order -/
+def dePairsN : Node → List (Tag × List Node)
+  | .tag _ => []
+  | .grp ks => dePairsKids ks ++ dePairsL ks
+def dePairsL : List Node → List (Tag × List Node)
+  | [] => []
+  | k :: ks => dePairsN k ++ dePairsL ks
+def dePairsKids : List Node → List (Tag × List Node)
+  | [] => []
+  | .tag _ :: r => dePairsKids r
+  | .grp ks :: r => (deTags ks).map (fun t => (t, ks)) ++ dePairsKids r
+end
+
+/-- all pairs of one cell (root first, then the groups in pre-order) -/
+def dePairs (root : List Node) : List (Tag × List Node) := dePairsKids root ++ dePairsL root
+
+def gatherAll (gfix : Bool) (st : GState) : List (Tag × List Node) → Except Err GState
+  | [] => .ok st
+  | (t, ks) :: r => match gatherStep fold gfix st t ks with
+    | .ok st' => gatherAll gfix st' r
+    | .error e => .error e
+end
+
 /-! ### Histories on one object -/
 
 inductive Op where
   | expand | shrink | copy | str | validate
 deriving Repr, DecidableEq, Inhabited
 
-/-- one operation on the object (observers leave it unchanged but fail on a cyclic tree) -/
-def stepG (fix : Bool) (dd : DefDict) (o : Obj) : Op → Except Err Obj
+/-- What `validate` does to one live tag: `_validate_def_contents` and `validate_def_value_units` call
+`get_definition(tag, return_copy_of_tag=True)`; the returned `HedGroup([tag, content])` sets `_parent` of its
+members, so without the copy (`copyTag = false`, not the code's behaviour) the live tag is re-parented. -/
+def valTag (copyTag : Bool) (dd : DefDict) (t : Tag) : Tag :=
+  if !copyTag && (t.base == .def_ || t.base == .defExpand) &&
+      (match expansion fold dd t with | .ok _ => true | _ => false)
+  then { t with att := .det0 } else t
+
+mutual
+def valAttN (copyTag : Bool) (dd : DefDict) : Node → Node
+  | .tag t => .tag (valTag fold copyTag dd t)
+  | .grp ks => .grp (valAttL copyTag dd ks)
+def valAttL (copyTag : Bool) (dd : DefDict) : List Node → List Node
+  | [] => []
+  | k :: ks => valAttN copyTag dd k :: valAttL copyTag dd ks
+end
+
+/-- `HedString.validate()` seen on the object's state (its issues are `validateDefs`) -/
+def validateG (copyTag : Bool) (dd : DefDict) (o : Obj) : Except Err Obj :=
+  if o.cyclic then .error .recursion else .ok { o with kids := valAttL fold copyTag dd o.kids }
+
+/-- one operation on the object (observers leave it unchanged but fail on a cyclic tree);
+`fix`/`copyTag` = true is the code under test -/
+def stepG (fix copyTag : Bool) (dd : DefDict) (o : Obj) : Op → Except Err Obj
   | .expand => expandG fold fix dd o
   | .shrink => shrinkG fix o
   | .copy => copy o
   | .str => (render o).map (fun _ => o)
-  | .validate => (render o).map (fun _ => o)
+  | .validate => validateG fold copyTag dd o
 
-def runG (fix : Bool) (dd : DefDict) (o : Obj) : List Op → Except Err Obj
+def runG (fix copyTag : Bool) (dd : DefDict) (o : Obj) : List Op → Except Err Obj
   | [] => .ok o
-  | op :: ops => match stepG fold fix dd o op with
-    | .ok o' => runG fix dd o' ops
+  | op :: ops => match stepG fold fix copyTag dd o op with
+    | .ok o' => runG fix copyTag dd o' ops
     | .error e => .error e
 
 end
